@@ -193,3 +193,10 @@ extern "C" void vp_sparse_construct(int i, int rehash_flag) {
 extern "C" int vp_m_segment_published(const map_t::base_type* m, unsigned long h) {
   return map_t::base_type::is_valid(m->my_table[map_t::base_type::segment_index_of(h)].load(std::memory_order_acquire));
 }
+// ---- helpers for h_seg.c (sequential unit without cuts: the real get_bucket / enable_segment / init_buckets)
+extern "C" void vp_m_enable_segment(map_t* m, unsigned long k) { m->enable_segment(k); }
+extern "C" void* vp_m_get_bucket(map_t* m, unsigned long h) { return m->get_bucket(h); }
+extern "C" void* vp_m_embedded(map_t* m, unsigned long i) { return &m->my_embedded_segment[i]; }
+extern "C" unsigned long vp_b_head(void* b) { return (unsigned long)static_cast<map_t::bucket*>(b)->node_list.load(std::memory_order_relaxed); }
+extern "C" unsigned long vp_b_lock(void* b) { return (unsigned long)static_cast<map_t::bucket*>(b)->mutex.m_state.load(std::memory_order_relaxed); }
+extern "C" unsigned long vp_bucket_sizeof() { return sizeof(map_t::bucket); }
